@@ -205,6 +205,9 @@ def expect_reject(res, what, trunc=False):
 
 
 def check_case(case):
+    if case.get('kind') == 'shared-addr':
+        libx.select('mainnet')
+        return check_shared_addr(case)
     chain = case['chain']
     libx.select(chain)
     try:
@@ -454,6 +457,41 @@ def t_each_type(ctx):
     ctx.exhaustive.append('17 message types x 4 chains, each with the complete header / truncation / length-field fault set')
 
 
+def check_shared_addr(case):
+    """the SAME address object put into a version message (serialised without its timestamp) and into an addr message
+    (with it), in either order, and an address parsed from one kind of message re-used in the other: each message frames as if
+    the object were its own"""
+    from bitcoin.messages import msg_version, msg_addr
+    a = {'time': case['time'], 'services': case['services'], 'ip': case['ip'], 'port': case['port']}
+    want_addr = R.payload({'type': 'addr', 'addrs': [a, a]})
+    vm = {'type': 'version', 'nVersion': 70015, 'nServices': 1, 'nTime': 5, 'addrTo': a, 'addrFrom': a, 'nNonce': 7, 'strSubVer': '2f782f', 'nStartingHeight': 9, 'fRelay': True}
+    want_ver = R.payload(norm(vm))
+    obj = mk_addr(a)
+    for order in ('version-first', 'addr-first'):
+        v = build(vm)
+        v.addrTo = obj
+        v.addrFrom = obj
+        m = msg_addr()
+        m.addrs = [obj, obj]
+        got = {}
+        for which in (('version', 'addr') if order == 'version-first' else ('addr', 'version')):
+            got[which] = libx.call('to_bytes-shared/' + which, (v if which == 'version' else m).to_bytes)[1][24:]
+        if got['version'] != want_ver or got['addr'] != want_addr:
+            raise Violation('layout/shared-address/' + order, 'one CAddress object used in a version and an addr message (%s): payload differs from the layout' % order)
+    # parsed from a version message, re-used in an addr message (and the other way round)
+    pv = MsgSerializable.from_bytes(R.frame(RC.CHAINS['mainnet']['magic'], 'version', want_ver))
+    pa = MsgSerializable.from_bytes(R.frame(RC.CHAINS['mainnet']['magic'], 'addr', want_addr))
+    m2 = msg_addr()
+    pv.addrTo.nTime = a['time']
+    m2.addrs = [pv.addrTo, pa.addrs[0]]
+    v2 = build(vm)
+    v2.addrTo = pa.addrs[0]
+    v2.addrFrom = pv.addrFrom
+    if libx.call('to_bytes-reused/addr', m2.to_bytes)[1][24:] != want_addr or libx.call('to_bytes-reused/version', v2.to_bytes)[1][24:] != want_ver:
+        raise Violation('layout/reused-parsed-address', 'an address parsed from one message type frames differently when re-used in the other')
+    return {'nt': True, 'evals': 6, 'cls': ['shared-address']}
+
+
 def t_big_vectors(ctx):
     """every vector-bearing message with 252 / 253 / 254 entries (CompactSize boundary of the count) and 1,000 entries; the same
     message twice in one stream (state must not carry over from the first to the second)"""
@@ -482,6 +520,9 @@ def t_big_vectors(ctx):
         big_tx = {'version': 1, 'vin': [['07' * 32, 0, '61' * 2200000, 5]], 'vout': [[1, '51']], 'wit': None, 'locktime': 0}
         ctx.run({'chain': 'mainnet', 'msgs': [{'type': 'tx', 'tx': big_tx}, {'type': 'ping', 'nonce': 1}]})
         ctx.run({'chain': 'regtest', 'msgs': [{'type': 'block', 'block': dict(hdr(5), txs=[big_tx])}, {'type': 'verack'}]})
+    if ctx.shard == 2 % ctx.nshards:
+        for ip in ('1.2.3.4', '::1', '2001:db8::5', '0.0.0.0'):
+            ctx.run({'kind': 'shared-addr', 'time': 1234567, 'services': 9, 'ip': ip, 'port': 8333})
     if ctx.shard == 0:
         ctx.exhaustive.append('7 vector-bearing message types x {252, 253, 254, 1000} entries, each followed by a 2-entry and the same big message')
 
